@@ -1,6 +1,7 @@
 package vsched
 
 import (
+	"os"
 	"runtime"
 	"strconv"
 	"sync"
@@ -12,7 +13,9 @@ var getg func() uintptr
 
 // RegisterGetg installs the fast current-g accessor and calibrates the goid offset.
 func RegisterGetg(f func() uintptr) {
-	if getg != nil {
+	if getg != nil || os.Getenv("VERIF_FREE") != "" {
+		// the free-running -race pass never asks for goroutine ids (and -race enables checkptr, which rejects
+		// the pointer arithmetic on g)
 		return
 	}
 	getg = f
